@@ -294,7 +294,21 @@ def make_asserts(n):
                           ref=lambda k: (k.v("x") == 0) | (k.v("x") == 1),
                           assume=lambda k: [(k.v("b") == 0) | (k.v("b") == 1)],
                           dom=lambda k: fits(k.v("x"), k.n), tags={"assert", "decl", "bool", "use"}))
+    ents.append(Entry("decl_bool_by_use_after_guarded_use", lambda k: _bool_use_twice(k), ("b", "x", "h"),
+                      ref=lambda k: (k.v("x") == 0) | (k.v("x") == 1),
+                      assume=lambda k: [(k.v("b") == 0) | (k.v("b") == 1), (k.v("h") == 0) | (k.v("h") == 1)],
+                      dom=lambda k: fits(k.v("x"), k.n), tags={"assert", "decl", "bool", "use", "reuse"}))
     return ents
+
+
+def _bool_use_twice(k):
+    """the same integer wire used as a boolean first inside a guarded region, then outside it: the second use must still
+    force it to be a bit"""
+    b = k.B("b")
+    x = k.S("x")
+    h = k.S("h")            # (not "g": that name is the harness's own outer guard in C07)
+    k.rt.guarded(h)(lambda: b & x)()
+    return [b | x]
 
 
 def _reuse_guarded(k, w):
